@@ -155,16 +155,18 @@ class Sched {
   static void hook_cb(ev e, const void* a, std::uint64_t v) noexcept {
     TCB* s = self_;
     if (inst_ == nullptr) return;
-    if (inst_->observer_) inst_->observer_(s, e, a, v);
-    if (s == nullptr) return;
-    if (!inst_->policy_(*s, e, a, v)) return;
-    s->pend = Pending{pkind::HOOK, e, a, v, 0};
-    s->spinning = (e == ev::SPIN);
-    if (e == ev::SPIN)
-      ++s->spin_streak;
-    else if (e != ev::L_LOAD)
-      s->spin_streak = 0;
-    yield();
+    if (s != nullptr && inst_->policy_(*s, e, a, v)) {
+      s->pend = Pending{pkind::HOOK, e, a, v, 0};
+      s->spinning = (e == ev::SPIN);
+      if (e == ev::SPIN)
+        ++s->spin_streak;
+      else if (e != ev::L_LOAD)
+        s->spin_streak = 0;
+      yield();
+    }
+    // the observer sees the event when the access is about to be executed (after the
+    // thread has been granted the baton), so what it reads from memory is what the access sees
+    if (inst_ != nullptr && inst_->observer_) inst_->observer_(s, e, a, v);
   }
 
   Policy policy_;
